@@ -6,6 +6,7 @@ CONSTANTS
   EmitStep = TRUE
   Heights = {1, 2, 3}
   Rounds = {0, 1}
+  Stages = {1, 3}
   Facts = {"A", "B"}
   ExSets = {{}, {"n1"}}
   AllowSC = TRUE
@@ -16,4 +17,5 @@ CONSTANTS
   StoreSC = "sf-"
   CleanSC = "sf-"
   CountRule = "sound"
+  EagerCount = FALSE
 CHECK_DEADLOCK FALSE
